@@ -741,6 +741,7 @@ func genC06(r *rng, tier string, emit func(string)) {
 		}
 	}
 	c06rGen(r, tier, emit) // Conn.Read buffering and handshake reassembly (Model.ConnRead)
+	c06oGen(r, tier, emit) // configuration corners: VerifyPeerCertificate, GetConfigForClient, ALPN, DynamicRecordSizingDisabled
 }
 
 type keyLog struct {
